@@ -3,5 +3,5 @@
 package edgesync
 
 // Accessors for the C08 harness (overlay-only file).
-func VerifValidateSyncPath(p string) error   { return validateSyncPath(p) }
-func VerifValidateSpokeID(id string) error   { return validateSpokeID(id) }
+func VerifValidateSyncPath(p string) error { return validateSyncPath(p) }
+func VerifValidateSpokeID(id string) error { return validateSpokeID(id) }
